@@ -58,6 +58,24 @@ func checkCacheKeyIdentity(c *Ctx, rule string) {
 	reg := NewRegion(get)
 	isKey := func(v ssa.Value) bool {
 		// key{start, limit}: a struct literal whose two fields are stored from the parameters, in order
+		// (possibly built by the caller and handed to a helper as a parameter)
+		for i := 0; i < 4; i++ {
+			v = stripConv(v)
+			if u0, ok := v.(*ssa.UnOp); ok {
+				if al, ok := u0.X.(*ssa.Alloc); ok {
+					if cv := cellValue(al); cv != nil {
+						if _, isP := cv.(*ssa.Parameter); isP {
+							v = cv
+						}
+					}
+				}
+			}
+			r := reg.Resolve(v)
+			if r == v {
+				break
+			}
+			v = r
+		}
 		u, ok := v.(*ssa.UnOp)
 		if !ok {
 			return false
@@ -109,8 +127,8 @@ func checkCacheKeyIdentity(c *Ctx, rule string) {
 		return true, ""
 	}
 	n := 0
-	for _, r := range returnsOf(get) {
-		vals := returnValues(r)
+	for _, rv := range reg.SuccessReturns() {
+		r, vals := rv.Ret, rv.Vals
 		if len(vals) != 2 || !isNilConst(vals[1]) {
 			continue
 		}
@@ -120,11 +138,27 @@ func checkCacheKeyIdentity(c *Ctx, rule string) {
 		if f, base := loadedField(v); f != nil && f.Name() == "d" {
 			ok, why = segOK(base)
 		} else if call, idx := resultOf(v); call != nil && idx == 0 {
-			if p, isP := call.Call.Value.(*ssa.Parameter); isP && p.Parent() == get {
+			if getterOf(reg, get, call) != nil {
 				ok, why = true, ""
+			} else if ls := reg.Leaves(v); len(ls) > 0 {
+				// the result of an inlined helper: every value it can return
+				ok, why = true, ""
+				for _, l := range ls {
+					if f, base := loadedField(l); f != nil && f.Name() == "d" {
+						if o2, w2 := segOK(base); !o2 {
+							ok, why = false, w2
+						}
+					} else if c2, i2 := resultOf(l); c2 != nil && i2 == 0 && getterOf(reg, get, c2) != nil {
+						// the fetch's own blocks
+					} else if isNilConst(l) {
+						// error path
+					} else {
+						ok, why = false, "returns blocks that are neither the getter's result nor the keyed segment's"
+					}
+				}
 			}
 		} else if call, isCall := v.(*ssa.Call); isCall {
-			if p, isP := call.Call.Value.(*ssa.Parameter); isP && p.Parent() == get {
+			if getterOf(reg, get, call) != nil {
 				ok, why = true, ""
 			}
 		}
@@ -134,19 +168,31 @@ func checkCacheKeyIdentity(c *Ctx, rule string) {
 	m := 0
 	for _, ci := range reg.Calls() {
 		call, ok := ci.(*ssa.Call)
-		if !ok || call.Call.IsInvoke() {
+		if !ok {
 			continue
 		}
-		p, isP := reg.Resolve(call.Call.Value).(*ssa.Parameter)
-		if !isP || p.Parent() != get {
-			continue
-		}
-		if _, isFn := p.Type().Underlying().(*types.Signature); !isFn {
+		inner := getterOf(reg, get, call)
+		if inner == nil {
 			continue
 		}
 		m++
-		args := call.Call.Args
-		ok = len(args) >= 2 && reg.Resolve(args[len(args)-2]) == ssa.Value(pStart) && reg.Resolve(args[len(args)-1]) == ssa.Value(pLimit)
+		args := inner.Call.Args
+		resolveArg := func(v ssa.Value) ssa.Value {
+			v = stripConv(v)
+			if u, isU := v.(*ssa.UnOp); isU {
+				if fv, isFV := u.X.(*ssa.FreeVar); isFV {
+					if b := (&apWalker{}).freeVarBinding(fv); b != nil {
+						if al, isAl := b.(*ssa.Alloc); isAl {
+							if cv := cellValue(al); cv != nil {
+								v = cv
+							}
+						}
+					}
+				}
+			}
+			return reg.Resolve(v)
+		}
+		ok = len(args) >= 2 && resolveArg(args[len(args)-2]) == ssa.Value(pStart) && resolveArg(args[len(args)-1]) == ssa.Value(pLimit)
 		c.Check(rule, fmt.Sprintf("cache.get/getter-call#%d-same-range", m), call.Pos(), ok, "the getter is asked for exactly (start, limit) of this request")
 	}
 	if n == 0 || m == 0 {
@@ -541,6 +587,72 @@ func checkLogsProbe(c *Ctx, rule string) {
 // checkCacheStoresOnlySuccess: in (*cache).get, segment state other than the
 // read counter is written only on the edge where the getter returned a nil
 // error, from that getter's result; the failing arm returns an error.
+// getterOf: the call invokes the cache's getter parameter – directly, or
+// through a function literal that does nothing but call it (`func() { return
+// f(ctx, url, start, limit) }` handed to a helper).  Returns the innermost
+// call of the getter itself (whose arguments are the requested range).
+func getterOf(reg *Region, get *ssa.Function, call *ssa.Call) *ssa.Call {
+	if call.Call.IsInvoke() {
+		return nil
+	}
+	isGetterParam := func(v ssa.Value) bool {
+		v = stripConv(v)
+		if u, ok := v.(*ssa.UnOp); ok {
+			if fv, ok := u.X.(*ssa.FreeVar); ok {
+				if b := (&apWalker{}).freeVarBinding(fv); b != nil {
+					if al, ok := b.(*ssa.Alloc); ok {
+						if cv := cellValue(al); cv != nil {
+							v = cv
+						}
+					}
+				}
+			}
+		}
+		if fv, ok := v.(*ssa.FreeVar); ok {
+			if b := (&apWalker{}).freeVarBinding(fv); b != nil {
+				v = b
+			}
+		}
+		p, ok := reg.Resolve(v).(*ssa.Parameter)
+		if !ok || p.Parent() != get {
+			return false
+		}
+		_, isFn := p.Type().Underlying().(*types.Signature)
+		return isFn
+	}
+	if isGetterParam(call.Call.Value) {
+		return call
+	}
+	// a parameter (of a helper) bound to a pass-through function literal
+	v := reg.Resolve(stripConv(call.Call.Value))
+	mc, ok := v.(*ssa.MakeClosure)
+	if !ok {
+		return nil
+	}
+	cf := mc.Fn.(*ssa.Function)
+	var inner *ssa.Call
+	n := 0
+	for _, ci := range callsIn(cf) {
+		n++
+		if ic, ok := ci.(*ssa.Call); ok && !ic.Call.IsInvoke() && isGetterParam(ic.Call.Value) {
+			inner = ic
+		}
+	}
+	if inner == nil || n != 1 {
+		return nil
+	}
+	// its results are returned as they are
+	for _, r := range returnsOf(cf) {
+		vals := returnValues(r)
+		for i, rv := range vals {
+			if rv != extractOf(inner, i) && rv != ssa.Value(inner) {
+				return nil
+			}
+		}
+	}
+	return inner
+}
+
 func checkCacheStoresOnlySuccess(c *Ctx, rule string) {
 	w := c.W
 	get := w.Fn("jrpc2", "(*cache).get")
@@ -560,10 +672,11 @@ func checkCacheStoresOnlySuccess(c *Ctx, rule string) {
 	// getter calls whose result reaches segment state
 	var fetches []*ssa.Call
 	for _, ci := range reg.Calls() {
-		if call, ok := ci.(*ssa.Call); ok && !call.Call.IsInvoke() && isGetter(call.Call.Value) {
+		if call, ok := ci.(*ssa.Call); ok && getterOf(reg, get, call) != nil {
 			fetches = append(fetches, call)
 		}
 	}
+	_ = isGetter
 	n := 0
 	reg.AllInstrs(func(in ssa.Instruction) {
 		st, ok := in.(*ssa.Store)
